@@ -289,6 +289,11 @@ func intValue(val reflect.Value) int64 {
 	return val.Int()
 }
 
+var (
+	marshalerType     = reflect.TypeOf((*Marshaler)(nil)).Elem()
+	textMarshalerType = reflect.TypeOf((*encoding.TextMarshaler)(nil)).Elem()
+)
+
 func getTagType(v reflect.Value) (byte, reflect.Value) {
 	for {
 		// Load value from interface
@@ -322,6 +327,22 @@ func getTagType(v reflect.Value) (byte, reflect.Value) {
 		}
 
 		v = v.Elem()
+	}
+
+	// A non-pointer value whose pointer type implements Marshaler or
+	// encoding.TextMarshaler (e.g. a dynbt.Value struct field) is encoded
+	// through its pointer methods.
+	if v.Kind() != reflect.Interface && v.CanInterface() &&
+		!v.Type().Implements(marshalerType) && !v.Type().Implements(textMarshalerType) {
+		if pt := reflect.PointerTo(v.Type()); pt.Implements(marshalerType) || pt.Implements(textMarshalerType) {
+			if v.CanAddr() {
+				v = v.Addr()
+			} else {
+				pv := reflect.New(v.Type())
+				pv.Elem().Set(v)
+				v = pv
+			}
+		}
 	}
 
 	if v.Type().NumMethod() > 0 && v.CanInterface() {
